@@ -34,6 +34,7 @@ type c19Case struct {
 	Path      bool
 	BeforeErr string // "" | name of the operation whose before-request call fails
 	URLQuery  bool   // the configured server URL carries a query string (e.g. an API key)
+	Reopen    bool   // after the history the client is closed and used again (Close, Initialize, requests, terminate)
 	Split     bool   // the static headers are configured through two WithHTTPHeaders options (with another option in between) instead of one
 	FirstInit int    // 0 = the handshake succeeds at once; else the HTTP status with which the server refuses the first initialize (no session id issued), after which the client initializes again
 }
@@ -53,6 +54,11 @@ func c19Cases(tier string) []c19Case {
 				c5 := c
 				c5.Split = true
 				out = append(out, c5)
+			}
+			if cl != "ls" && (mask == 2 || mask == 3 || mask == 15) {
+				c6 := c
+				c6.Reopen = true
+				out = append(out, c6)
 			}
 			if cl != "ls" && (mask == 0 || mask == 15) {
 				for _, st := range []int{503, 400} {
@@ -75,7 +81,7 @@ func c19Cases(tier string) []c19Case {
 
 func c19Eval(tier string, i int) CaseResult {
 	cs := c19Cases(tier)[i]
-	cr := CaseResult{Desc: fmt.Sprintf("client=%s static=%v before=%v handler=%v path=%v beforeErr=%q firstInit=%d urlQuery=%v split=%v", cs.Client, cs.Static, cs.Before, cs.Handler, cs.Path, cs.BeforeErr, cs.FirstInit, cs.URLQuery, cs.Split), Nontrivial: true}
+	cr := CaseResult{Desc: fmt.Sprintf("client=%s static=%v before=%v handler=%v path=%v beforeErr=%q firstInit=%d urlQuery=%v split=%v", cs.Client, cs.Static, cs.Before, cs.Handler, cs.Path, cs.BeforeErr, cs.FirstInit, cs.URLQuery, cs.Split) + map[bool]string{true: " reopen", false: ""}[cs.Reopen], Nontrivial: true}
 	var viol []explore.Violation
 	obs := &hx.Log{}
 	k := func(s string) string { return fmt.Sprintf("%s:%s", s, cs.Client) }
@@ -225,6 +231,17 @@ func c19Eval(tier string, i int) CaseResult {
 			if sc, ok := cl.(mcp.SessionClient); ok && cs.Client != "ls" {
 				do(step{"terminate", func() error { return sc.TerminateSession(tok("terminate")) }})
 			}
+			if cs.Reopen && !failed {
+				// a second life of the same client object: everything configured still applies
+				do(step{"close", func() error { return cl.Close() }})
+				do(step{"init", func() error { _, e := cl.Initialize(tok("init"), &mcp.InitializeRequest{}); return e }})
+				vsched.Quiesce()
+				do(step{"listtools", func() error { _, e := cl.ListTools(tok("listtools"), &mcp.ListToolsRequest{}); return e }})
+				do(step{"rootschanged", func() error { return cl.SendRootsListChangedNotification(tok("rootschanged")) }})
+				if sc, ok := cl.(mcp.SessionClient); ok {
+					do(step{"terminate", func() error { return sc.TerminateSession(tok("terminate")) }})
+				}
+			}
 		}
 		vsched.Quiesce()
 		// ---- every request the server received
@@ -300,6 +317,9 @@ func c19Eval(tier string, i int) CaseResult {
 				}
 				if strings.Contains(body, `"initialize"`) && x.Status == 200 {
 					issued = true // the answer to this request issued the session id
+				}
+				if x.Method == "DELETE" && x.Status == 200 {
+					issued = false // the session is over; a later handshake starts without one
 				}
 			}
 		}
